@@ -31,3 +31,9 @@ Definition scan (REQ : bool) (VS : Z) (degree nmoduli : Z) (val : Z -> Z -> Z) :
               for_up 0 VS 1 (fun k st => match st with Some r => Some (Some r) | None => Some (if lane_test REQ (val cm (j + k)) then Some (negb REQ) else None) end) st) st) None)
          (fun st => Some (match st with Some r => r | None => REQ end))
   else None.
+
+(* ---- poly::operator=(ops::expr<Op, Args...> const&), as tools/cxxassign2coq.py emits it: the loop nest over the moduli and the vectors of VS
+   elements; blk cm j = the one statement of the body, store(&( *this)(cm, j), expr.load<simd_mode>(cm, j)), a function of the CURRENT memory (the
+   destination may be one of the operands).  The static_assert(vector_bound == degree) is the guard. *)
+Definition assign_prog {S : Type} (VS degree nmoduli : Z) (blk : Z -> Z -> S -> option S) (s : S) : option S :=
+  if (degree / VS * VS =? degree) then for_up 0 nmoduli 1 (fun cm s1 => for_up 0 (degree / VS * VS) VS (fun j s2 => blk cm j s2) s1) s else None.
